@@ -36,6 +36,7 @@ type observation struct {
 	Positive  int
 	Taken     int
 	Canon     string
+	msg       *dns.Msg
 	NonTriv   bool
 }
 
@@ -49,12 +50,39 @@ func backendOf(name string) dnsfix.Backend {
 	return 0
 }
 
-// serve runs one query with the scripted draws (keys in row order, then
-// shuffle draws) and judges the response against the statement.
+// keyDraws is the number of key draws the HANDLER takes for a slot (measured by
+// a probe query with maxAnswer 1, so that nothing is shuffled) and whether that
+// is the number of rows a fresh reader enumerates. The two differ only when the
+// store enumerates rows differently inside the serve path (a RocksDB reader
+// that returns the rows of another key after a miss): the configuration is
+// then "misaligned": draws can no longer be attributed to candidates, every
+// sequence over the draws actually taken is still enumerated and judged.
+func (w *world) keyDraws(s slot, cl string) (int, bool) {
+	k := s.String() + "|" + cl
+	if v, ok := w.nk[k]; ok {
+		return v, v == len(w.drawRows(s, cl))
+	}
+	src.load(nil)
+	qn, qt := s.query()
+	w.h.Serve(dnsfix.Query(qn, qt), clientIP[cl], false, 1)
+	v := src.taken()
+	if w.nk == nil {
+		w.nk = map[string]int{}
+	}
+	w.nk[k] = v
+	aligned := v == len(w.drawRows(s, cl))
+	if !aligned && w.backend == dnsfix.CDB {
+		vlib.Infra("the handler takes %d key draws where the reader enumerates %d rows (cdb set %s %s client=%q): the scripted source no longer addresses the draws as the code sees them\n%s", v, len(w.drawRows(s, cl)), setKey(w.set), s, cl, w.text)
+	}
+	return v, aligned
+}
+
+// serve runs one query with the scripted draws (keys in the order the draws
+// are taken, then shuffle draws) and judges the response against the statement.
 func serve(w *world, s slot, cl string, m int, keys, shuffle []uint32) observation {
-	rows := w.drawRows(s, cl)
-	if len(keys) != len(rows) {
-		vlib.Infra("harness: %d key draws for %d rows", len(keys), len(rows))
+	nk, aligned := w.keyDraws(s, cl)
+	if len(keys) != nk {
+		vlib.Infra("harness: %d key draws scripted for %d taken", len(keys), nk)
 	}
 	script := make([]uint32, 0, len(keys)+len(shuffle))
 	script = append(script, keys...)
@@ -67,20 +95,26 @@ func serve(w *world, s slot, cl string, m int, keys, shuffle []uint32) observati
 	}
 	res := w.h.Serve(dnsfix.Query(qn, qt), clientIP[cl], false, mm)
 	o := observation{Taken: src.taken()}
-	// the draws the code took must be the ones the script was written for
-	items := len(rows)
-	if s.Sect != "answer" {
-		items = 1
-	} else if m < items {
-		items = m
-	}
-	maxShuffle := 0
-	if items > 1 {
-		maxShuffle = 2 * (items - 1) // each shuffle step takes one draw, or two when the first is rejected by int31n
-	}
-	if o.Taken < len(keys) || o.Taken > len(keys)+maxShuffle {
-		vlib.Infra("the code under test took %d draws where the script provides %d key draws (+ at most %d shuffle draws): the scripted source no longer addresses the draws as the code sees them (set %s %s client=%q m=%d)",
-			o.Taken, len(keys), maxShuffle, setKey(w.set), s, cl, m)
+	if aligned {
+		// the draws the code took must be the ones the script was written for
+		items := nk
+		if s.Sect != "answer" {
+			items = 1
+		} else if m < items {
+			items = m
+		}
+		maxShuffle := 0
+		if items > 1 {
+			maxShuffle = 2 * (items - 1) // each shuffle step takes one draw, or two when the first is rejected by int31n
+		}
+		if (o.Taken < len(keys) || o.Taken > len(keys)+maxShuffle) && w.backend != dnsfix.CDB {
+			// RocksDB stores: the serve path may select twice for one name (an NS RRset that is duplicated in the
+			// authority section makes the glue selection run again when the first run served nothing): judged as is
+			deviations++
+		} else if o.Taken < len(keys) || o.Taken > len(keys)+maxShuffle {
+			vlib.Infra("the code under test took %d draws where the script provides %d key draws (+ at most %d shuffle draws): the scripted source no longer addresses the draws as the code sees them (%s set %s %s client=%q m=%d)\n%s\n%s",
+				o.Taken, len(keys), maxShuffle, w.backend, setKey(w.set), s, cl, m, dnsfix.CanonResult(res), w.text)
+		}
 	}
 	judge(w, s, cl, m, res, &o)
 	return o
@@ -93,12 +127,8 @@ func judge(w *world, s slot, cl string, m int, res dnsfix.Result, o *observation
 		return
 	}
 	msg := res.Msgs[0]
+	o.msg = msg
 	o.Rcode = dns.RcodeToString[msg.Rcode]
-	o.Canon = dnsfix.Canon(msg)
-	fams := []int{s.Fam}
-	if s.Fam == 0 {
-		fams = []int{4, 6}
-	}
 	limit := m
 	section := msg.Answer
 	if s.Sect != "answer" {
@@ -106,91 +136,81 @@ func judge(w *world, s slot, cl string, m int, res dnsfix.Result, o *observation
 		section = msg.Extra
 	}
 	owner := s.owner()
-	kinds := map[string]bool{}
-	for _, f := range fams {
-		// declared, visible candidates of this family
-		weight := map[string]uint32{}
-		pos := 0
-		for i, c := range w.set {
-			if c.Tag != "" && c.Tag != cl {
-				continue
-			}
-			ip := addr4(i)
-			if f == 6 {
-				ip = addr6(i)
-			}
-			weight[ip.String()] = c.W
-			if c.W > 0 {
-				pos++
-			}
+	var bad [6]bool // foreign, repeat, weight0-served, short, long
+	// declared, visible candidates per family: address -> weight
+	vi := w.visible(s, cl)
+	weight := vi.weight
+	var want, got [2]int
+	for k := range weight {
+		if weight[k] == nil {
+			continue
 		}
-		o.Visible += len(weight)
-		o.Positive += pos
-		want := limit
-		if pos < want {
-			want = pos
+		o.Visible += len(weight[k])
+		o.Positive += vi.pos[k]
+		want[k] = limit
+		if vi.pos[k] < limit {
+			want[k] = vi.pos[k]
 		}
-		o.Want += want
-		if len(weight) > want {
+		o.Want += want[k]
+		if len(weight[k]) > want[k] {
 			o.NonTriv = true
 		}
-		seen := map[string]bool{}
-		got := 0
-		for _, rr := range section {
-			var ip net.IP
-			switch x := rr.(type) {
-			case *dns.A:
-				if f != 4 {
-					continue
-				}
-				ip = x.A
-			case *dns.AAAA:
-				if f != 6 {
-					continue
-				}
-				ip = x.AAAA
-			default:
-				continue
-			}
-			if s.Sect != "answer" && !strings.EqualFold(rr.Header().Name, owner) {
-				continue // address of some other additional-section name: not this slot's business
-			}
-			got++
-			a := ip.String()
-			o.Addrs = append(o.Addrs, a)
-			wt, declared := weight[a]
-			if !declared || !strings.EqualFold(rr.Header().Name, owner) {
-				kinds["foreign"] = true
-				continue
-			}
-			if seen[a] {
-				kinds["repeat"] = true
-			}
-			seen[a] = true
-			if wt == 0 && msg.Rcode == dns.RcodeSuccess {
-				kinds["weight0-served"] = true
-			}
+	}
+	seen := map[string]bool{}
+	for _, rr := range section {
+		var ip net.IP
+		k := 0
+		switch x := rr.(type) {
+		case *dns.A:
+			ip = x.A
+		case *dns.AAAA:
+			ip, k = x.AAAA, 1
+		default:
+			continue // MX/NS/... records are not this property's business
 		}
-		if got < want {
-			kinds["count/short"] = true
+		a := ip.String()
+		o.Addrs = append(o.Addrs, a)
+		if weight[k] == nil || !strings.EqualFold(rr.Header().Name, owner) {
+			bad[0] = true // address record of a family or owner that was not asked for
+			continue
 		}
-		if got > want {
-			kinds["count/long"] = true
+		got[k]++
+		wt, declared := weight[k][a]
+		if !declared {
+			bad[0] = true // not a declared address of this name visible to this client
+			continue
+		}
+		if seen[a] {
+			bad[1] = true
+		}
+		seen[a] = true
+		if wt == 0 && msg.Rcode == dns.RcodeSuccess {
+			bad[2] = true
 		}
 	}
-	if s.Sect == "answer" && s.Fam != 0 {
-		// an address query must not carry addresses of the other family in its answer
-		for _, rr := range msg.Answer {
-			t := rr.Header().Rrtype
-			if (s.Fam == 4 && t == dns.TypeAAAA) || (s.Fam == 6 && t == dns.TypeA) {
-				kinds["foreign"] = true
-			}
+	for k := range want {
+		if weight[k] == nil {
+			continue
+		}
+		if got[k] < want[k] {
+			bad[3] = true
+		}
+		if got[k] > want[k] {
+			bad[4] = true
 		}
 	}
-	for k := range kinds {
-		o.Kinds = append(o.Kinds, k)
+	for i, name := range []string{"foreign", "repeat", "weight0-served", "count/short", "count/long"} {
+		if bad[i] {
+			o.Kinds = append(o.Kinds, name)
+		}
 	}
-	sort.Strings(o.Kinds)
+}
+
+func (o *observation) canon() string {
+	if o.Canon == "" && o.msg != nil {
+		o.Canon = dnsfix.Canon(o.msg)
+	}
+	return o.Canon
 }
 
 // attach labels the draws of a served case with the candidates whose rows received them.
@@ -262,12 +282,14 @@ func (c ecase) run() observation {
 	w := getWorld(set, backendOf(c.Backend))
 	s := slot{c.Sect, c.Fam}
 	rows := w.drawRows(s, c.Client)
-	keys := make([]uint32, len(rows))
-	for j, r := range rows {
+	nk, _ := w.keyDraws(s, c.Client)
+	keys := make([]uint32, nk)
+	for j := range keys {
 		keys[j] = 1 << 31
-		if r.Cand < 0 {
-			continue
+		if j >= len(rows) || rows[j].Cand < 0 {
+			continue // a draw that cannot be attributed to a candidate (misaligned configuration)
 		}
+		r := rows[j]
 		k := 0
 		if c.Fam == 0 && r.Fam == 6 {
 			k = 1
@@ -290,6 +312,9 @@ func (o observation) has(kind string) bool {
 }
 
 var failMemo = map[string]bool{}
+
+// evaluations in which the number of draws taken was not the number scripted (never on CDB)
+var deviations int64
 
 func (c ecase) fails(kind string) bool {
 	k := kind + "|" + c.key()
@@ -344,7 +369,7 @@ func (c ecase) minimise(kind string) ecase {
 // ---- enumeration ----
 
 type e2eStats struct {
-	evals, nontrivial, worlds, failing, shuffleEvals, configs int64
+	evals, nontrivial, worlds, failing, shuffleEvals, configs, misaligned int64
 	bySize                                                   [6]int64
 }
 
@@ -380,7 +405,7 @@ func report(r *vlib.Run, w *world, s slot, cl string, m int, keys, shuffle []uin
 		}
 		mo := mc.run()
 		r.Violate(fp, fmt.Sprintf("clause %q violated in the %s section (backend %s, client location %q, family %d, maxAnswer %d): candidates %s [weight@tag:draw]; visible=%d positive-weight=%d want %d address(es), got %v; rcode %s\n%s\n(first seen in the larger case %s)",
-			kind, mc.Sect, mc.Backend, mc.Client, mc.Fam, mc.M, mc.candText(), mo.Visible, mo.Positive, mo.Want, mo.Addrs, mo.Rcode, mo.Canon, c.candText()),
+			kind, mc.Sect, mc.Backend, mc.Client, mc.Fam, mc.M, mc.candText(), mo.Visible, mo.Positive, mo.Want, mo.Addrs, mo.Rcode, mo.canon(), c.candText()),
 			map[string]interface{}{"part": "e2e", "kind": kind, "case": mc})
 	}
 }
@@ -390,6 +415,64 @@ func sectName(s slot) string {
 		return "answer"
 	}
 	return s.Sect + "-additional"
+}
+
+// enumerate serves, for one slot and client of a world, every maxAnswer in ms
+// and every sequence of key draws over the draw alphabet (shuffle draws
+// defaulted), then - if asked - each shuffle draw varied over the alphabet with
+// the keys fixed. visit returns false to stop.
+func enumerate(w *world, s slot, cl string, ms []int, shuffle bool, visit func(m int, keys, shuf []uint32, shuffled bool, o observation) bool) {
+	nk, _ := w.keyDraws(s, cl)
+	if s.Sect != "answer" {
+		ms = []int{1}
+	}
+	keys := make([]uint32, nk)
+	digits := make([]int, nk)
+	for _, m := range ms {
+		for i := range digits {
+			digits[i] = 0
+		}
+		for {
+			for i, d := range digits {
+				keys[i] = drawAlphabet[d]
+			}
+			if !visit(m, keys, nil, false, serve(w, s, cl, m, keys, nil)) {
+				return
+			}
+			i := 0
+			for i < nk {
+				digits[i]++
+				if digits[i] < len(drawAlphabet) {
+					break
+				}
+				digits[i] = 0
+				i++
+			}
+			if i == nk {
+				break
+			}
+		}
+		if shuffle && s.Sect == "answer" {
+			items := nk
+			if m < items {
+				items = m
+			}
+			for _, kv := range keyVectors(nk) {
+				for pos := 0; pos < items-1; pos++ {
+					for _, d := range drawAlphabet {
+						sh := make([]uint32, items-1)
+						for i := range sh {
+							sh[i] = filler
+						}
+						sh[pos] = d
+						if !visit(m, kv, sh, true, serve(w, s, cl, m, kv, sh)) {
+							return
+						}
+					}
+				}
+			}
+		}
+	}
 }
 
 // runPlan enumerates every draw sequence for one candidate set.
@@ -411,80 +494,127 @@ func runPlan(r *vlib.Run, p e2ePlan, st *e2eStats) {
 	first := true
 	for _, cl := range p.clients {
 		for _, s := range slots {
-			rows := w.drawRows(s, cl)
-			nk := len(rows)
-			ms := p.ms
-			if s.Sect != "answer" {
-				ms = []int{1}
+			_, aligned := w.keyDraws(s, cl)
+			if !aligned {
+				st.misaligned++
 			}
-			keys := make([]uint32, nk)
-			digits := make([]int, nk)
-			for _, m := range ms {
-				st.configs++
-				for i := range digits {
-					digits[i] = 0
+			lastM := 0
+			enumerate(w, s, cl, p.ms, p.shuffle, func(m int, keys, shuf []uint32, shuffled bool, o observation) bool {
+				if m != lastM {
+					lastM = m
+					st.configs++
 				}
-				for {
-					for i, d := range digits {
-						keys[i] = drawAlphabet[d]
-					}
-					o := serve(w, s, cl, m, keys, nil)
+				if shuffled {
+					st.shuffleEvals++
+				} else {
 					st.evals++
 					st.bySize[len(p.set)]++
-					if o.NonTriv {
-						st.nontrivial++
-					}
-					if len(o.Kinds) > 0 {
-						st.failing++
-						report(r, w, s, cl, m, append([]uint32(nil), keys...), nil, o)
-					}
-					if first || (st.evals&(st.evals-1)) == 0 {
-						first = false
-						r.Sample(map[string]interface{}{"part": "e2e", "candidates": attach(w, s, cl, m, keys, nil).candText(), "backend": w.backend.String(), "slot": s.String(), "client": cl, "max_answer": m, "want": o.Want, "served": o.Addrs, "rcode": o.Rcode, "verdict": o.Kinds})
-					}
-					// next sequence
-					i := 0
-					for i < nk {
-						digits[i]++
-						if digits[i] < len(drawAlphabet) {
-							break
-						}
-						digits[i] = 0
-						i++
-					}
-					if i == nk {
-						break
+				}
+				if o.NonTriv {
+					st.nontrivial++
+				}
+				if len(o.Kinds) > 0 {
+					st.failing++
+					if aligned {
+						report(r, w, s, cl, m, append([]uint32(nil), keys...), shuf, o)
+					} else {
+						reportMisaligned(r, p, w, s, cl, m, keys, o)
 					}
 				}
-				// shuffle draws varied one at a time over the alphabet, keys fixed
-				if p.shuffle && s.Sect == "answer" {
-					items := nk
-					if m < items {
-						items = m
+				if !shuffled && (first || (st.evals&(st.evals-1)) == 0) {
+					first = false
+					cands := setKey(w.set) + fmt.Sprintf(" draws=%v (not attributable)", keys)
+					if aligned {
+						cands = attach(w, s, cl, m, keys, nil).candText()
 					}
-					for _, kv := range keyVectors(nk) {
-						for pos := 0; pos < items-1; pos++ {
-							for _, d := range drawAlphabet {
-								sh := make([]uint32, items-1)
-								for i := range sh {
-									sh[i] = filler
-								}
-								sh[pos] = d
-								o := serve(w, s, cl, m, kv, sh)
-								st.shuffleEvals++
-								if o.NonTriv {
-									st.nontrivial++
-								}
-								if len(o.Kinds) > 0 {
-									st.failing++
-									report(r, w, s, cl, m, kv, sh, o)
-								}
-							}
-						}
+					r.Sample(map[string]interface{}{"part": "e2e", "candidates": cands, "backend": w.backend.String(), "slot": s.String(), "client": cl, "max_answer": m, "want": o.Want, "served": o.Addrs, "rcode": o.Rcode, "verdict": o.Kinds})
+				}
+				return true
+			})
+		}
+	}
+}
+
+// ---- misaligned configurations: minimise over candidate sets only ----
+
+type setFailure struct {
+	found bool
+	m     int
+	keys  []uint32
+	o     observation
+}
+
+var setFailMemo = map[string]setFailure{}
+
+// firstFailure enumerates a (set, slot, client) configuration until a response violates the clause.
+func firstFailure(set []sym, p e2ePlan, s slot, cl string, kind string) setFailure {
+	k := fmt.Sprintf("%s|%s|%s|%s|%s", p.backend, setKey(set), s, cl, kind)
+	if v, ok := setFailMemo[k]; ok {
+		return v
+	}
+	w := getWorld(set, p.backend)
+	var f setFailure
+	enumerate(w, s, cl, p.ms, false, func(m int, keys, _ []uint32, _ bool, o observation) bool {
+		if o.has(kind) {
+			f = setFailure{true, m, append([]uint32(nil), keys...), o}
+			return false
+		}
+		return true
+	})
+	setFailMemo[k] = f
+	return f
+}
+
+func reportMisaligned(r *vlib.Run, p e2ePlan, w *world, s slot, cl string, m int, keys []uint32, o observation) {
+	for _, kind := range o.Kinds {
+		// smallest sub-multiset of the set that violates the same clause for some maxAnswer and draw sequence
+		best := append([]sym(nil), w.set...)
+		n := len(w.set)
+	search:
+		for size := 1; size < n; size++ {
+			idx := make([]int, size)
+			var rec func(pos, from int) bool
+			rec = func(pos, from int) bool {
+				if pos == size {
+					sub := make([]sym, size)
+					for i, j := range idx {
+						sub[i] = w.set[j]
+					}
+					if firstFailure(sub, p, s, cl, kind).found {
+						best = sub
+						return true
+					}
+					return false
+				}
+				for i := from; i < n; i++ {
+					idx[pos] = i
+					if rec(pos+1, i+1) {
+						return true
 					}
 				}
+				return false
+			}
+			if rec(0, 0) {
+				break search
 			}
 		}
+		f := firstFailure(best, p, s, cl, kind)
+		if !f.found {
+			f = setFailure{true, m, append([]uint32(nil), keys...), o}
+		}
+		bw := getWorld(best, p.backend)
+		nk, _ := bw.keyDraws(s, cl)
+		ds := make([]string, len(f.keys))
+		for i, d := range f.keys {
+			ds[i] = fmt.Sprint(d)
+		}
+		fp := fmt.Sprintf("e2e/%s/%s/%s/rows-enumerated-differently/n=%d/%s/cl=%s/draws=%s", kind, sectName(s), p.backend, len(best), setKey(best), cl, strings.Join(ds, ","))
+		if r.Has(fp) {
+			continue
+		}
+		r.Violate(fp, fmt.Sprintf("clause %q violated in the %s section (backend %s, client location %q, family %d, maxAnswer %d): candidates %s [weight@tag]; serving this query takes %d key draws although a fresh reader enumerates %d candidate rows for this client (rows are enumerated differently inside the serve path, so draws cannot be attributed to candidates); draws in the order taken %v; visible=%d positive-weight=%d want %d address(es), got %v; rcode %s\n%s",
+			kind, s.Sect, p.backend, cl, s.Fam, f.m, setKey(best), nk, len(bw.drawRows(s, cl)), f.keys, f.o.Visible, f.o.Positive, f.o.Want, f.o.Addrs, f.o.Rcode, f.o.canon()),
+			map[string]interface{}{"part": "e2e-misaligned", "kind": kind, "set": best, "backend": p.backend.String(), "section": s.Sect, "family": s.Fam, "client_location": cl, "max_answer": f.m, "draws": f.keys})
 	}
 }
 
